@@ -17,7 +17,13 @@ func MakeVirtualHostBucketAddressingMiddleware(baseEndpoint string, next http.Ha
 		if hostname != baseEndpoint && strings.HasSuffix(hostname, endpointSuffix) {
 			bucket := strings.TrimSuffix(hostname, endpointSuffix)
 			if bucket != "" {
-				r.URL.Path = strings.TrimSuffix("/"+bucket+r.URL.Path, "/")
+				// The bucket root maps to "/<bucket>"; every other path keeps its key byte for
+				// byte, including a trailing slash (keys such as "folder/" are valid).
+				if r.URL.Path == "/" || r.URL.Path == "" {
+					r.URL.Path = "/" + bucket
+				} else {
+					r.URL.Path = "/" + bucket + r.URL.Path
+				}
 			}
 		}
 		next.ServeHTTP(w, r)
